@@ -408,6 +408,7 @@ func runC11(r *mc.Run) {
 	c11SignatureShapes(r)
 	c11LongLived(r)
 	c11RootCrlPoints(r)
+	c11KeyIdentifiers(r)
 
 	// genuine Intel samples
 	now := world.TimeSetAt(intelRefTime)
@@ -593,6 +594,59 @@ func c11RootCrlPoints(r *mc.Run) {
 		}
 	}
 	r.SectionDone(mc.Section{Name: "root-crl-distribution-points", Evaluations: int64(n), Exhaustive: true})
+}
+
+// c11KeyIdentifiers: honest chains in which a CA certificate was re-issued (same key, same name) with ANOTHER subject
+// key identifier than the one the certificates below it name as their authority key identifier, or in which the
+// identifiers are absent / of another length. Key identifiers are hints for finding a path, not part of validating it.
+func c11KeyIdentifiers(r *mc.Run) {
+	T := world.CachedPKI("T")
+	other := world.Fill("c11-other-key-identifier", 20)
+	short := world.Fill("c11-short-key-identifier", 8)
+	const pckDP = "https://api.trustedservices.intel.com/sgx/certification/v4/pckcrl?ca=platform&encoding=der"
+	n := 0
+	for _, v := range []string{"intermediate-reissued-with-another-ski", "root-reissued-with-another-ski", "leaf-names-another-aki", "tcb-signer-names-another-aki", "intermediate-with-8-byte-ski", "all-of-these"} {
+		is := func(k string) bool { return v == k || v == "all-of-these" }
+		w := world.Honest("T")
+		pk := *T
+		if is("root-reissued-with-another-ski") {
+			pk.Root = world.MakeCert(world.CertSpec{CN: world.CNRoot, IsCA: true, Key: T.RootKey, MaxPathLen: 1, SubjectKeyID: other}, nil, T.RootKey)
+		}
+		if is("intermediate-reissued-with-another-ski") {
+			pk.Inter = world.MakeCert(world.CertSpec{CN: world.CNPlatform, IsCA: true, Key: T.InterKey, MaxPathLen: -1, SubjectKeyID: other}, T.Root, T.RootKey)
+		}
+		if v == "intermediate-with-8-byte-ski" {
+			pk.Inter = world.MakeCert(world.CertSpec{CN: world.CNPlatform, IsCA: true, Key: T.InterKey, MaxPathLen: -1, SubjectKeyID: short}, T.Root, T.RootKey)
+		}
+		if is("leaf-names-another-aki") {
+			pk.Leaf = world.MakeCert(world.CertSpec{CN: world.CNLeaf, Key: T.LeafKey, SGXExt: world.SGXExtension(w.Plat), CRLDP: []string{pckDP}, AuthorityKeyID: world.Fill("c11-third-identifier", 20)}, T.Inter, T.InterKey)
+		}
+		if is("tcb-signer-names-another-aki") {
+			pk.Tcb = world.MakeCert(world.CertSpec{CN: world.CNTcb, Key: T.TcbKey, AuthorityKeyID: world.Fill("c11-fourth-identifier", 20)}, T.Root, T.RootKey)
+		}
+		w.PKI = &pk
+		w.Spec.PKI = w.PKI
+		w.Parts = w.Spec.Parts()
+		w.Roots = world.Pool(pk.Root)
+		w.PckCrl = world.MakeCRL(world.CRLSpec{Issuer: pk.Inter, Signer: pk.InterKey})
+		w.RootCrl = world.MakeCRL(world.CRLSpec{Issuer: pk.Root, Signer: pk.RootKey})
+		w.Finish()
+		for _, level := range []int{world.L0, world.L1, world.L2} {
+			id := fmt.Sprintf("key-identifiers/%s/%s", v, lvlName[level])
+			if !r.Want(id) {
+				continue
+			}
+			n++
+			err := verifyRawBoth(r, id, w.Raw(), w.Options(level))
+			out := verdict(err)
+			if err != nil {
+				r.Violate("key-identifiers:honest-rejected:"+v, id, "an honestly produced, in-date quote is rejected at "+lvlName[level]+" ("+v+"): "+errStr(err), nil)
+				out += "!"
+			}
+			r.Eval(id, true, "key-identifiers:"+lvlName[level]+":"+out)
+		}
+	}
+	r.SectionDone(mc.Section{Name: "key-identifiers", Evaluations: int64(n), Exhaustive: true})
 }
 
 func c11SignatureShapes(r *mc.Run) {
